@@ -10,6 +10,7 @@ import (
 
 	"github.com/quic-go/quic-go"
 
+	"example.com/scion-time/net/scion"
 	"example.com/scion-time/net/udp"
 )
 
@@ -49,7 +50,9 @@ func (f *Fetcher) exchangeKeys(ctx context.Context) error {
 	// exchange has succeeded, so that a failed exchange leaves nothing behind.
 	var data Data
 	if f.QUIC.Enabled {
-		conn, _, err := dialQUIC(f.Log, f.QUIC.LocalAddr, f.QUIC.RemoteAddr, f.QUIC.DaemonAddr, &f.TLSConfig)
+		var err error
+		var conn *scion.QUICConnection
+		conn, data, err = dialQUIC(f.Log, f.QUIC.LocalAddr, f.QUIC.RemoteAddr, f.QUIC.DaemonAddr, &f.TLSConfig)
 		if err != nil {
 			return err
 		}
